@@ -22,6 +22,7 @@ PID = "C16"
 CHUNK = 25000
 KNOWN_FEE = "FeesPaid_LastHopRaiseNotCharged"
 KNOWN_PANIC = "panic_used_liquidity_after_last_hop_raise"
+KNOWN_PANIC_ROUNDING = "panic_max_final_value_msat_rounding"
 
 _RE_BAD = re.compile(r'^<<"BAD", (\d+), \{(.*)\}>>\s*$', re.M)
 _RE_CLS = re.compile(r'^<<"(OKCLASS|ERRCLASS)", (\d+), "(\w+)">>\s*$', re.M)
@@ -73,13 +74,23 @@ def validate(trace_path, wd, tag, parallel=3):
 
 
 def known_key(rec, names):
-    """Canonical key of the two recorded findings (KNOWN_FINDINGS.jsonl); None for anything else."""
+    """Canonical key of the recorded findings (KNOWN_FINDINGS.jsonl); None for anything else.
+    A panic is recognised by its message AND the function it came from (frames[0], taken from the
+    backtrace by the engine) AND, for the used-liquidity assertion, the precondition of a last-hop
+    raise: a usable channel into the payee whose htlc_minimum a part of the payment can fall below."""
     if names == {KNOWN_FEE}:
         return KNOWN_FEE
-    if names == {"Panic"} and "used_liquidity_msat <= hop_max_msat" in rec.get("msg", ""):
-        g, req = rec["g"], rec["req"]
-        if any(e["dst"] == g["payee"] and e["en"] and e["min"] > req["amt"] for e in g["edges"]):
+    if names != {"Panic"}:
+        return None
+    msg, frames = rec.get("msg", ""), rec.get("frames") or [""]
+    g, req = rec["g"], rec["req"]
+    if "used_liquidity_msat <= hop_max_msat" in msg and frames[0].endswith("router::get_route"):
+        mpp = req["mpp"] and req["max_paths"] > 1
+        floor = 1 if mpp else max(1, req["amt"] - g["n"] * (2 + req["amt"] // 100000))
+        if any(e["dst"] == g["payee"] and e["en"] and e["min"] >= floor for e in g["edges"]):
             return KNOWN_PANIC
+    if msg == "assertion failed: false" and frames[0].endswith("PaymentPath::max_final_value_msat"):
+        return KNOWN_PANIC_ROUNDING
     return None
 
 
@@ -258,26 +269,48 @@ def run(tier, seed):
     # ---- 3. TLC judges every record
     t1 = time.time()
     total, bad, cls = validate(tpath, wd, "v", parallel=4 if thorough else 3)
-    vlib.log("[tlc] %d records judged in %.0fs, %d falsified" % (total, time.time() - t1, len(bad)))
-    recs = []
+    tlc_wall = time.time() - t1
+    vlib.log("[tlc] %d records judged in %.0fs, %d falsified" % (total, tlc_wall, len(bad)))
+    # one streaming pass over the trace: falsified records, the head (for the self-test), evidence
+    bad_recs, head, samples = {}, [], [None, None, None]
+
+    def nontrivial(x):
+        if x["ev"] != "case":
+            return True
+        if x["res"]["ok"]:
+            ps = x["res"]["paths"]
+            return len(ps) >= 2 or any(len(q) >= 2 for q in ps)
+        return cls.get(x["run"]) in ("no_single_path", "limits_binding", "violation")
+    wants = (lambda x: x["ev"] == "case" and x["res"]["ok"] and len(x["res"]["paths"]) >= 2,
+             lambda x: x["ev"] == "case" and x["res"]["ok"] and len(x["res"]["paths"][0]) >= 3,
+             lambda x: x["ev"] == "case" and not x["res"]["ok"] and cls.get(x["run"]) == "limits_binding")
     with open(tpath) as f:
-        for ln in f:
-            recs.append(json.loads(ln))
+        for k, ln in enumerate(f):
+            x = json.loads(ln)
+            assert x["run"] == k + 1
+            if x["run"] in bad:
+                bad_recs[x["run"]] = x
+            elif len(head) < 80000:
+                head.append(x)
+            for i, w in enumerate(wants):
+                if samples[i] is None and w(x):
+                    samples[i] = {kk: x[kk] for kk in ("id", "g", "req", "res")}
+    samples = [x for x in samples if x]
+
+    def nontrivial_items():
+        with open(tpath) as f:
+            for ln in f:
+                x = json.loads(ln)
+                if nontrivial(x):
+                    yield {"g": x["g"], "req": x["req"], "res": x.get("res")}
     if total != summ["cases"] or len(cls) + summ["panics"] != total:
         raise vlib.ToolError("trace/verdict count mismatch: %d records, %d classified" % (total, len(cls)))
     clsc = collections.Counter(cls.values())
     vlib.log("[tlc] oracle classes %s" % dict(clsc))
-    # vacuity guards
-    if summ["ok"] * 4 < total or summ["multi_hop"] * 10 < total or summ["multi_path"] < 200:
-        raise vlib.ToolError("vacuity: too few non-trivial routes %s" % summ)
-    if clsc["premise_holds"] < 1000 or clsc["no_single_path"] < 100 or clsc["limits_binding"] < 10:
-        raise vlib.ToolError("vacuity: existence oracle classes %s" % dict(clsc))
-
     inputs = None
     nviol, known_hits, reported = 0, collections.Counter(), 0
     for run_id in sorted(bad):
-        rec = recs[run_id - 1]
-        assert rec["run"] == run_id
+        rec = bad_recs[run_id]
         key = known_key(rec, bad[run_id])
         if key is not None:
             known_hits[key] += 1
@@ -305,32 +338,23 @@ def run(tier, seed):
     if known_hits:
         vlib.log("[known] %s" % dict(known_hits))
 
+    # vacuity guards (a violation is reported first: a broken router may well return few routes)
+    if nviol == 0:
+        if summ["ok"] * 4 < total or summ["multi_hop"] * 10 < total or summ["multi_path"] < 200:
+            raise vlib.ToolError("vacuity: too few non-trivial routes %s" % summ)
+        if clsc["premise_holds"] < 1000 or clsc["no_single_path"] < 100 or clsc["limits_binding"] < 10:
+            raise vlib.ToolError("vacuity: existence oracle classes %s" % dict(clsc))
+    
     # ---- 4. binding self-test
     st = None
     if nviol == 0:
-        st = selftest(wd, [x for x in recs if x["run"] not in bad], cls)
+        st = selftest(wd, head, cls)
         vlib.log("[selftest] %s" % st)
 
     # ---- evidence
-    def nontrivial(x):
-        if x["ev"] != "case":
-            return True
-        if x["res"]["ok"]:
-            ps = x["res"]["paths"]
-            return len(ps) >= 2 or any(len(q) >= 2 for q in ps)
-        return cls.get(x["run"]) in ("no_single_path", "limits_binding", "violation")
-    nt = [{"g": x["g"], "req": x["req"], "res": x.get("res")} for x in recs if nontrivial(x)]
-    samples = []
-    for want in (lambda x: x["ev"] == "case" and x["res"]["ok"] and len(x["res"]["paths"]) >= 2,
-                 lambda x: x["ev"] == "case" and x["res"]["ok"] and len(x["res"]["paths"][0]) >= 3,
-                 lambda x: x["ev"] == "case" and not x["res"]["ok"] and cls.get(x["run"]) == "limits_binding"):
-        for x in recs:
-            if want(x):
-                samples.append({k: x[k] for k in ("id", "g", "req", "res")})
-                break
     cov = {
         "evaluations": total,
-        "distinct_nontrivial": vlib.distinct_count(nt),
+        "distinct_nontrivial": vlib.distinct_count(nontrivial_items()),
         "rule": "TLC evaluates, per recorded find_route call, Ok(r) => ValidRoute(g,req,r) (15 named conjuncts of "
                 "spec/Router.tla) and Err => ~MustNotFail(g,req) (brute-force enumeration of all simple paths with "
                 "backward fee propagation); a falsified record or a panic is a violation",
@@ -341,7 +365,7 @@ def run(tier, seed):
         "oracle_classes": dict(clsc),
         "ok_results_with_existence_premise_armed": clsc["premise_holds"],
         "falsified_records": len(bad), "known_finding_hits": dict(known_hits),
-        "binding_selftest": st, "tlc_validation_wall_s": round(time.time() - t1, 1),
+        "binding_selftest": st, "tlc_validation_wall_s": round(tlc_wall, 1),
         "exhaustive": False,
     }
     vlib.write_evidence(PID, tier, seed, "exploration", cov, [
